@@ -126,6 +126,8 @@ func (b *Buffer) Write(p []byte) (n int, err error)
   ensures n == len(p)
   ensures ref(b.buf) == old(ref(b.buf)) || fresh(b.buf)
   ensures b.mode == old(b.mode)
+  -- the payload lands verbatim at the end of the buffer (escaping of the not yet validated suffix is lazy)
+  ensures [C09,C10] old(ref(p) != ref(b.buf)) ==> len(b.buf) >= len(p) && (forall j :: 0 <= j && j < len(p) ==> b.buf[len(b.buf) - len(p) + j] == old(p[j]))
 
 func (b *Buffer) WriteString(s string) (n int, err error)
   requires b.mode == SafeRaw ==> frag(s, len(s)) && clean(b.buf, len(b.buf))
@@ -134,6 +136,7 @@ func (b *Buffer) WriteString(s string) (n int, err error)
   lemma [C01,C03] ConcatWF(ga, b.buf, s, gl, len(s)) when b.mode == SafeRaw at exit
   ensures n == len(s)
   ensures b.mode == old(b.mode)
+  ensures [C09,C10] len(b.buf) >= len(s) && (forall j :: 0 <= j && j < len(s) ==> b.buf[len(b.buf) - len(s) + j] == s[j])
 
 func (b *Buffer) WriteByte(s byte) (err error)
   requires b.mode == SafeRaw ==> s < 128
@@ -142,6 +145,9 @@ func (b *Buffer) WriteByte(s byte) (err error)
   lemma [C01,C03] AppendPlain(ga, b.buf, gl, len(b.buf)) when b.mode == SafeRaw after "b.buf[m] = s"
   lemma [C01,C03] AppendPlainLS(ga, b.buf, gl, len(b.buf)) when b.mode == SafeRaw after "b.buf[m] = s"
   ensures b.mode == old(b.mode)
+  -- a single unsafe byte that is not ASCII (or is the first byte of a marker) is replaced by '?', so that a
+  -- marker cannot be assembled byte by byte; every other byte lands as it is
+  ensures [C09] len(b.buf) >= 1 && b.buf[len(b.buf) - 1] == ((old(b.mode) == UnsafeEscaped && (s >= 128 || s == 226)) ? 63 : s)
 
 func (b *Buffer) WriteRune(s rune) (err error)
   requires b.mode == SafeRaw ==> 0 <= s && s < 128
